@@ -840,7 +840,10 @@ class Table(Vector):
 		"""
 		if len(assignments) > 1:
 			for col_idx, val in assignments:
-				self._underlying[col_idx].copy()[row_spec] = val
+				col = self._underlying[col_idx]
+				# (a scratch copy is never aliased: ask the tracker about the real column)
+				_ALIAS_TRACKER.check_writable(col, id(col._underlying))
+				col.copy()[row_spec] = val
 		for col_idx, val in assignments:
 			self._underlying[col_idx][row_spec] = val
 
